@@ -14,3 +14,24 @@ def declare(reg):
         ensures={"vv": "result[0] == self.uid_vv", "uid": "result[1] == uid_of_key(self, msg_key)"},
         props=["C14", "C03"],
     )
+    reg.specfn("uid_max", "m: ref:Mailbox", "int", "ite(len(m.uids) > 0, m.uids[len(m.uids) - 1], 1)")
+    reg.contract(
+        P, "Mailbox.msg_set_to_msg_seq_set",
+        params={"self": "ref:Mailbox", "msg_set": "opt[list[MsgElt]]", "from_uids": "bool"}, ret="opt[set[int]]",
+        requires={"wf": "is_none(msg_set) or wf_msgset(some(msg_set))"},
+        ensures={
+            "none": "is_none(result) == is_none(msg_set)",
+            "seq-denote": "implies(not is_none(msg_set) and not from_uids, "
+                          "forall(lambda x: (x in some(result)) == denotes(some(msg_set), self.num_msgs, x)))",
+            "uid-denote-sound": "implies(not is_none(msg_set) and from_uids, "
+                                "forall(lambda n: implies(n in some(result), 1 <= n and n <= len(self.uids) and denotes(some(msg_set), uid_max(self), self.uids[n - 1]))))",
+            "uid-denote-complete": "implies(not is_none(msg_set) and from_uids, "
+                                   "forall(lambda n: implies(1 <= n and n <= len(self.uids) and denotes(some(msg_set), uid_max(self), self.uids[n - 1]), n in some(result))))",
+        },
+        raises={"Bad": "not is_none(msg_set) and has_bad(some(msg_set), ite(from_uids, uid_max(self), self.num_msgs), from_uids, len(some(msg_set)))"},
+        props=["C15", "C03"],
+        ghost={"harness": "harness.seqset:MsgSetToSeqSet"},
+    )
+    reg.properties.setdefault("C15", {}).setdefault("bounded", []).append(
+        {"name": "msg_set_to_msg_seq_set-vs-denote", "module": "harness.seqset", "func": "MsgSetToSeqSet"}
+    )
